@@ -78,6 +78,9 @@ pub struct Gen<'a> {
 
 impl<'a> Gen<'a> {
     pub fn int_expr(&mut self, sc: &Scope, depth: u32) -> E {
+        if depth == 0 && self.rng.chance(1, 14) {
+            return E::Lit(V::Null);
+        }
         let r = self.rng.below(if depth == 0 { 3 } else { 12 });
         match r {
             0 | 1 | 3 | 4 => sc.pick(self.rng, Ty::Int).unwrap_or_else(|| int(1)),
